@@ -6,8 +6,8 @@
 EXTENDS Responder, Json
 VARIABLE hist
 SInit == Init /\ hist = <<>>
-Point == IF ex = "start" THEN "popped" ELSE IF ex = "hook" THEN "hook" ELSE IF ex = "txn" THEN "load" ELSE IF ex = "idle" /\ task # "pending" THEN "idle" ELSE "moving"
-Auto == Pop \/ Load \/ Complete \/ Finish \/ TakeMsg
+Point == IF ex = "start" THEN "popped" ELSE IF ex = "finishing" THEN "finishing" ELSE IF ex = "updhook" THEN "updhook" ELSE IF ex = "hook" THEN "hook" ELSE IF ex = "txn" THEN "load" ELSE IF ex = "idle" /\ task # "pending" THEN "idle" ELSE "moving"
+Auto == Pop \/ Load \/ TxnCont \/ Complete \/ FinalTxn \/ TakeMsg
 Stable == Point # "moving" /\ ~ENABLED Auto
 Ev(e, a) == [ev |-> e, a |-> a, at |-> Point, k |-> trav]
 SNext == \/ Auto /\ hist' = hist
@@ -19,8 +19,23 @@ SNext == \/ Auto /\ hist' = hist
                \/ CmdCancel /\ hist' = Append(hist, Ev("cmdcancel", ""))
                \/ PauseCmd /\ hist' = Append(hist, Ev("pause", ""))
                \/ Start /\ hist' = Append(hist, Ev("start", ""))
-         \/ /\ Stable /\ Point # "popped"
-            /\ \/ \E h \in {"accept", "reject", "pause", "error"} : New(h) /\ hist' = Append(hist, Ev("new", h))
+         \* the worker has queued its last transaction and has not yet told the manager that the task is finished (verif hook of
+         \* the query executor): the message can go out, or fail, before the manager hears of the finish
+         \/ /\ Stable /\ Point = "finishing"
+            /\ \/ SendOK /\ hist' = Append(hist, Ev("sendok", ""))
+               \/ SendFail /\ hist' = Append(hist, Ev("sendfail", ""))
+               \/ PeerCancel("P") /\ hist' = Append(hist, Ev("cancel", "P"))
+               \/ CmdCancel /\ hist' = Append(hist, Ev("cmdcancel", ""))
+               \/ FinishMsg /\ hist' = Append(hist, Ev("finish", ""))
+         \* the executor is inside the update hook of a stored update
+         \/ /\ Stable /\ Point = "updhook"
+            /\ \E d \in {"none", "error"} : UpdHook(d) /\ hist' = Append(hist, Ev("updhook", d))
+         \/ /\ Stable /\ Point \notin {"popped", "finishing", "updhook"}
+            /\ \/ \E d \in (IF resp = "paused" THEN {"loop-none", "loop-unpause", "loop-error"} ELSE {"-"}) :
+                    /\ PeerUpdate("P", CASE d = "loop-unpause" -> "unpause" [] d = "loop-error" -> "error" [] OTHER -> "none")
+                    /\ hist' = Append(hist, Ev("update", "P:" \o d))
+               \/ PeerUpdate("Q", "none") /\ hist' = Append(hist, Ev("update", "Q:-"))
+               \/ \E h \in {"accept", "reject", "pause", "error"} : New(h) /\ hist' = Append(hist, Ev("new", h))
                \/ \E w \in {"P", "Q"} : PeerCancel(w) /\ hist' = Append(hist, Ev("cancel", w))
                \/ QNew /\ hist' = Append(hist, Ev("qnew", ""))
                \/ CmdCancel /\ hist' = Append(hist, Ev("cmdcancel", ""))
